@@ -79,6 +79,17 @@ def write_replay(pid: str, data: dict) -> Path:
     return p
 
 
+def tree_digest() -> str:
+    """digest of every .py file of the library under check (used to tell the tree the obligation baseline was taken on)"""
+    import hashlib
+
+    h = hashlib.sha256()
+    for f in sorted(SRC.rglob("*.py")):
+        h.update(str(f.relative_to(SRC)).encode())
+        h.update(f.read_bytes())
+    return h.hexdigest()[:20]
+
+
 def src_sha(path: Path, lo: int, hi: int) -> str:
     lines = path.read_text().splitlines()[lo - 1 : hi]
     return hashlib.sha256("\n".join(lines).encode()).hexdigest()[:16]
